@@ -205,6 +205,30 @@ func TestC12(t *testing.T) {
 				}
 				hist = append(hist, fmt.Sprintf("verify world %d (%s) gc=%v cr=%v getter=%d pool=%d times=%d -> shared %s / fresh %s", i, faults[i].Name, cur.gc, cur.cr, cur.getter, cur.pool, cur.times, vs.Short(), vf.Short()))
 				distinctWorlds[i] = true
+				// the stateless expectation, whatever this process verified before: applicable when pool, getter and times are the quote's own
+				if cur.getter == i && cur.pool == i && cur.times == i && !vf.Panicked() {
+					l := gen.LvlBase
+					switch {
+					case cur.gc && cur.cr:
+						l = gen.LvlCRL
+					case cur.gc:
+						l = gen.LvlColl
+					case cur.cr:
+						l = gen.LvlCRLNoColl
+					}
+					if faults[i].RejectedAt(l) == vf.Accepted() {
+						gen.Fail(t, gen.Violation{Key: "history:verdict-differs-from-stateless-expectation:" + faults[i].Name + "@" + l.String(), Oracle: "the verdict depends only on the quote, the option settings and the fetched data, not on what was verified before",
+							Detail: fmt.Sprintf("after %d steps a world with fault %q at level %s got %s from FRESH options; history: %s", len(hist), faults[i].Name, l, vf, strings.Join(hist, " ; ")), Replay: map[string]any{"kind": "history", "history": hist}})
+					}
+				}
+				for _, u := range fresh.Getter.(*gen.Getter).Requests() {
+					if strings.Contains(u, "/tcb?") && u != gen.TcbInfoURL(worlds[i].FmspcHex()) {
+						gen.Fail(t, gen.Violation{Key: "tcb-info-url", Oracle: "the TCB Info request names the FMSPC of the quote's PCK certificate", Detail: fmt.Sprintf("%s want %s; history: %s", u, gen.TcbInfoURL(worlds[i].FmspcHex()), strings.Join(hist, " ; ")), Replay: map[string]any{"kind": "history", "history": hist}})
+					}
+					if strings.Contains(u, "/pckcrl") && u != gen.PckCrlURL(worlds[i].IssuerCA()) {
+						gen.Fail(t, gen.Violation{Key: "pck-crl-url", Oracle: "the PCK CRL request names the CA (platform or processor) that issued the PCK certificate", Detail: fmt.Sprintf("%s want %s; history: %s", u, gen.PckCrlURL(worlds[i].IssuerCA()), strings.Join(hist, " ; ")), Replay: map[string]any{"kind": "history", "history": hist}})
+					}
+				}
 				if !sameOutcome(vs, vf) {
 					gen.Fail(t, gen.Violation{Key: "history-dependent-verdict", Oracle: "re-using an options value that earlier verified other quotes gives the same verdict as a fresh one",
 						Detail: fmt.Sprintf("after %d steps: shared=%s fresh=%s; history: %s", len(hist), vs, vf, strings.Join(hist, " ; ")), Replay: map[string]any{"kind": "history", "history": hist}})
